@@ -50,7 +50,15 @@ def run(ctx):
                 while vec.tag in ('map',):
                     vec = vec[1]
                 pushed = [e[3][0] for e in (vec[2] if vec.tag == 'mut' else ()) if e.tag == 'ev' and e[2].endswith('::push') and e[3]]
-                if any(x.tag == 'call' and x[3] and x[3][-1] == (p.key, r.bb) for x in pushed):
+                # (the point may be compressed before it is pushed)
+                def unwrap1(t):
+                    # look through unary conversions of the point (compress(), clone(), ..), not into its operands
+                    out = [t]
+                    while t.tag == 'call' and len(t[2]) == 1:
+                        t = t[2][0]
+                        out.append(t)
+                    return out
+                if any(x.tag == 'call' and x[3] and x[3][-1] == (p.key, r.bb) for pv in pushed for x in unwrap1(pv)):
                     r.name = nm
         elif r.name.startswith('ACC@'):
             for f, nm in (('a1', 'A1'), ('b', 'B')):
